@@ -16,14 +16,15 @@ Bounded clause (labelled): operand spellings never normalise to the same C ident
 finite spelling set of C07 and the aliases of the corpus.
 """
 from __future__ import annotations
+import ast
 import itertools
 import os
 import re
 import z3
 from lark import Token
 
-from pyvc.interp import explore
-from pyvc.loader import Loader
+from pyvc.interp import explore, AbsSeq, LoopContract
+from pyvc.loader import Loader, FuncInfo
 from pyvc.values import Obj, Tpl, SInt, Atom
 from pyvc.vc import Check
 from pyvc import replay
@@ -35,9 +36,11 @@ from .c19 import SymStr, sv, re_stub, WORD
 PROP = "C11"
 Z3_TIMEOUT_MS = 3000
 CVC5_TIMEOUT_MS = 25000
-FILTER = r"#decl|#emit|#loop|add_op#|#flags|#getter|#names|fbody#|bundle_usage#|declaration-shape|#well-sorted|#total|#ends-with-return|#order|#reset\.(holder|transformer)|dead-arm-side-effect|live-arm-side-effect|#children: every operand the emitter reads"
+FILTER = r"#decl|#emit|#loop|#comment|add_op#|#flags|#getter|#names|fbody#|bundle_usage#|declaration-shape|#well-sorted|#total|#ends-with-return|#order|#reset\.(holder|transformer)|dead-arm-side-effect|live-arm-side-effect|#children: every operand the emitter reads"
 
 MUTANTS = [
+    {"name": "Branch.__str__: arms printed on their own lines (the statement comment spills into the code)", "file": "rzilcompiler/Transformer/Effects/Branch.py",
+     "old": "return f\"if ({self.cond}) {{{self.then}}}", "new": "return f\"if ({self.cond}) {{\\n{self.then}}}"},
     {"name": "add_op: name suffix uses a constant", "file": "rzilcompiler/Transformer/RZILTransformer.py",
      "old": '            op.set_name(f"{op.get_name()}_{num_id}")', "new": '            op.set_name(f"{op.get_name()}_0")'},
     {"name": "add_op: registered variables are not de-duplicated", "file": "rzilcompiler/Transformer/RZILTransformer.py",
@@ -337,6 +340,157 @@ def gen_fbody(loader, check, replay_on=True):
                     check.ob("fbody#decl.initialiser-before-the-sequence-that-uses-it", inst, p.ctx.pc, txt.index("<s0>") < txt.index("instruction_sequence ="))
 
 
+
+# ------------------------------------------------------------------------------------------ comment text (str of a node) is one line
+CHILD_FIELDS = ("dest", "src", "cond", "then", "otherwise", "control", "compound", "target", "va", "data_var", "size")
+
+
+def _abstract_children(it, o):
+    """every child the printer may print becomes an arbitrary node whose own str() is, by this very contract, one line"""
+    n = 0
+
+    def child(ch):
+        nonlocal n
+        if isinstance(ch, Obj):
+            n += 1
+            ch.label = f"child{n}"
+            ch.stubs["__str__"] = irkit.str_stub
+    for f in ("ops", "effect_ops"):
+        for ch in (o.fields.get(f) or []) if isinstance(o.fields.get(f), list) else []:
+            child(ch)
+    for f in CHILD_FIELDS:
+        child(o.fields.get(f))
+    return n
+
+
+def gen_comments(loader, check, replay_on=True):
+    """READ_STATEMENTS writes `// <str(effect)>;` in front of every statement block: the text must stay inside the comment.
+    Contract of every __str__ of an IR class: the result is one line (no line break) provided the children's are - structural induction
+    over the node; names are identifiers (A-NAMES), operator spellings come from the enums, types from ValueType.__str__ (run, not assumed).
+    The comment ends with `;` (emit_stmt_blocks step obligation), so it cannot end in a line-splicing backslash either."""
+    L = loader
+    AT = irkit.enum(L, "Assignment", "AssignmentType")
+    HT = irkit.enum(L, "Hybrid", "HybridType")
+    BT = irkit.enum(L, "BitOp", "BitOperationType")
+    BO = irkit.enum(L, "BooleanOp", "BooleanOpType")
+    t32 = (True, 32)
+
+    def v(it, n):
+        return irkit.mk_var(it, n, t32)
+
+    def eff(it, kind, label):
+        return c05.mk_effect(it, L, kind, label)
+
+    def sub_call(it):
+        sr = it.call(irkit.C(L, "SubRoutine"), ["sextract64", conc_vt(L, (True, 64)), [it.call(irkit.C(L, "Parameter"), ["value", conc_vt(L, (False, 64))], {})], "b"], {})
+        return it.call(irkit.C(L, "SubRoutineCall"), [sr, [v(it, "a")]], {})
+    class Children(LoopContract):
+        name = "__str__.children"
+
+        def element_kinds(self):
+            return ["node"]
+
+        def make_element(self, it, kind, seq):
+            ch = v(it, "child")
+            ch.label = "child_k"
+            ch.stubs["__str__"] = irkit.str_stub
+            return ch
+
+    def any_seq(it):
+        o = it.call(irkit.C(L, "Sequence"), ["seq", [eff(it, "Assignment", "e1")]], {})
+        o.fields["effect_ops"] = AbsSeq("effect_ops", Children())
+        return o
+
+    def any_ops(it, o):
+        o.fields["ops"] = AbsSeq("ops", Children())
+        return o
+    cases = {k: (lambda it, k=k: irkit.mk_operand(it, k, t32, "n")) for k in irkit.ALL_KINDS}
+    cases.update({
+        "BitOp unary": lambda it: it.call(irkit.C(L, "BitOp"), ["op_NOT", v(it, "a"), None, BT("~")], {}),
+        "BooleanOp unary": lambda it: it.call(irkit.C(L, "BooleanOp"), ["op_INV", v(it, "a"), None, BO("!")], {}),
+        "ReturnValue": lambda it: it.call(irkit.C(L, "ReturnValue"), [conc_vt(L, t32)], {}),
+        "LocalVar": lambda it: it.call(irkit.C(L, "LocalVar"), ["tmp", conc_vt(L, t32)], {}),
+        "PostfixIncDec": lambda it: it.call(irkit.C(L, "PostfixIncDec"), ["op_INC", v(it, "a"), conc_vt(L, t32), HT("++")], {}),
+        "SubRoutineCall": sub_call,
+        "Assignment": lambda it: it.call(irkit.C(L, "Assignment"), ["op_ASSIGN", AT("="), v(it, "d"), v(it, "s")], {}),
+        "Assignment compound": lambda it: it.call(irkit.C(L, "Assignment"), ["op_ASSIGN", AT("+="), v(it, "d"), v(it, "s")], {}),
+        "Branch with else": lambda it: it.call(irkit.C(L, "Branch"), ["br", irkit.mk_operand(it, "CompareOp", t32, "c"), eff(it, "Assignment", "t"), eff(it, "Assignment", "e")], {}),
+        "Branch without else": lambda it: it.call(irkit.C(L, "Branch"), ["br", irkit.mk_operand(it, "CompareOp", t32, "c"), eff(it, "Assignment", "t"), None], {}),
+        "Empty": lambda it: it.call(irkit.C(L, "Empty"), ["empty"], {}),
+        "NOP": lambda it: it.call(irkit.C(L, "NOP"), ["nop"], {}),
+        "ForLoop": lambda it: it.call(irkit.C(L, "ForLoop"), ["for", irkit.mk_operand(it, "CompareOp", t32, "c"), eff(it, "Assignment", "b")], {}),
+        "Jump": lambda it: it.call(irkit.C(L, "Jump"), ["jump", v(it, "target")], {}),
+        "MemStore": lambda it: it.call(irkit.C(L, "MemStore"), ["ms", v(it, "EA"), v(it, "data")], {}),
+        "Sequence of two": lambda it: it.call(irkit.C(L, "Sequence"), ["seq", [eff(it, "Assignment", "e1"), eff(it, "Assignment", "e2")]], {}),
+        "Sequence of any number": lambda it: any_seq(it),
+        "PostfixIncDec of any number of operands": lambda it: any_ops(it, it.call(irkit.C(L, "PostfixIncDec"), ["op_INC", v(it, "a"), conc_vt(L, t32), HT("++")], {})),
+        "SubRoutineCall with any number of arguments": lambda it: any_ops(it, sub_call(it)),
+        "MacroInvocation with any number of arguments": lambda it: any_ops(it, irkit.mk_operand(it, "MacroInvocation", t32, "n")),
+        "Sequence of none": lambda it: it.call(irkit.C(L, "Sequence"), ["seq", []], {}),
+    })
+    printers = set()
+    for lab, mk in cases.items():
+        check.instances_declared += 1
+
+        def setup(it, mk=mk):
+            # len() / slicing of a symbolic text (Sequence.__str__ shortens long texts): any length, a slice of one line is one line
+            it.ctx.tpl_len_hook = lambda it_, t: SInt(z3.Int("len_text"))
+            it.ctx.tpl_slice_hook = lambda it_, t, lo, hi, st: Tpl([Atom("slice", 0, kind="slice", meta={"of": t})])
+            o = mk(it)
+            o.stubs.pop("__str__", None)
+            nch = _abstract_children(it, o)
+            return {"o": o, "nch": nch}
+        ex = explore(loader, setup, lambda it, st: it.str_(st["o"]))
+        check.absorb(ex, f"__str__ {lab}")
+        if ex.paths:
+            check.instances_generated += 1
+        for i, p in enumerate(ex.paths):
+            pi = f"node={lab} path={i}"
+            if p.outcome != "return":
+                check.ob("__str__#comment.total", pi, p.ctx.pc, False, detail=f"raises {p.value!r}")
+                continue
+            owner, m = p.state["o"].cls.lookup("__str__")
+            if isinstance(m, FuncInfo):
+                printers.add(m.qualname)
+                check.under_contract(loader, m)
+
+            def one_line(t):
+                for part in emit.as_tpl(t).parts:
+                    if isinstance(part, str):
+                        if "\n" in part or "\r" in part:
+                            return False, f"line break in {part!r}"
+                    elif isinstance(part, Atom):
+                        if part.kind == "slice":
+                            ok, why = one_line(part.meta["of"])
+                            if not ok:
+                                return ok, why
+                        elif part.kind == "join":
+                            # texts of all elements of a list of any length, separated: one line iff the separator and every element's text are
+                            for q in [part.meta["sep"]] + list(part.meta["elements"].values()):
+                                ok, why = one_line(q)
+                                if not ok:
+                                    return ok, why
+                        elif part.kind not in ("str", "fmtint", "fmtbool"):
+                            return False, f"text of unknown shape {part!r}"
+                return True, ""
+            ok, why = one_line(p.value)
+            check.ob("__str__#comment.one-line: the printed form of a node contains no line break if its children's do not", pi, p.ctx.pc, ok,
+                     detail=why or emit.as_tpl(p.value).render(lambda a: f"<{a.tag}>")[:120],
+                     replay=("c11.comment", lambda m: {}) if replay_on else None)
+    # every IR class that can be printed has been covered by a case above
+    have = set()
+    for name, mod in irkit.CLS.items():
+        cls = loader.load(mod).globals.get(name)
+        if cls is None or not hasattr(cls, "lookup"):
+            continue
+        owner, m = cls.lookup("__str__")
+        if isinstance(m, FuncInfo) and "OverloadException" not in ast.dump(m.node):
+            have.add(m.qualname)
+    check.ob("__str__#comment.coverage: every printer of an IR class is under this contract", "class table", [], have <= printers, detail=str(sorted(have - printers)))
+    check.instances_declared += 1
+    check.instances_generated += 1
+
+
 # ------------------------------------------------------------------------------------------ companion record (strings)
 def _cfg(ctx):
     ctx.assume_feasible = True
@@ -585,11 +739,34 @@ def gen_shared(loader, check, what, replay_on=True):
 
 
 def gen_task(loader, check, what, replay_on=True):
-    own = {"add_op": gen_add_op, "order": gen_order, "fbody": gen_fbody, "record": gen_record, "names": gen_names, "reg_decls": gen_reg_decls, "record_ground": gen_record_ground}
+    own = {"add_op": gen_add_op, "order": gen_order, "fbody": gen_fbody, "comments": gen_comments, "record": gen_record, "names": gen_names, "reg_decls": gen_reg_decls, "record_ground": gen_record_ground}
     if what in own:
         own[what](loader, check, replay_on)
     else:
         gen_shared(loader, check, what, replay_on)
+
+
+COMMENT_STMTS = ["{ RdV = RsV + 1; }", "{ if (RsV > 1) { RdV = RtV; } else { RdV = 2; } }", "{ if (RsV > 1) { RdV = RtV; } }", "{ for (i = 0; i < 2; i++) { RdV = RdV + i; } }",
+                 "{ mem_store_u32(EA, RtV); }", "{ RdV = (RsV ? RtV : 3) & ~RtV; }", "{ RdV = mem_load_s16(EA); }", "{ JUMP(RsV); }",
+                 "{ RdV = sextract64(RssV, 3, 2); }", "{ RdV = RsV++; }", "{ RdV = !RsV && (RtV == 1); }", "{ RdV = sizeof(RsV) + siV; }", "{ ; }", "{ RdV += RsV; }"]
+
+
+@replay.register("c11.comment")
+def replay_comment(a):
+    """compiles statements that print every kind of node in the statement comments and looks for text that left its comment"""
+    c = irkit.real_compiler()
+    bad = []
+    for stmt in COMMENT_STMTS:
+        try:
+            txt = c.compile_c_stmt(stmt)
+        except Exception as e:                                     # noqa: BLE001 - a statement the compiler rejects prints nothing
+            continue
+        for ln in txt.splitlines():
+            t = ln.strip()
+            if not t or t.startswith("//") or t.startswith("return ") or re.match(r"^(const )?\w[\w ]*\*?\w+ = .*;$", t):
+                continue
+            bad.append((stmt, ln))
+    return bool(bad), f"lines that are neither a comment, a declaration nor the return: {bad[:3]}"
 
 
 @replay.register("c11.twice")
@@ -603,7 +780,7 @@ def replay_twice(a):
 
 def generate_reduced(loader, check):
     check.ob_filter = FILTER
-    for w in ("add_op", "order", "fbody", "record", "record_ground", "reg_decls", "catalog", "loops", "final", "history"):
+    for w in ("add_op", "order", "fbody", "comments", "record", "record_ground", "reg_decls", "catalog", "loops", "final", "history"):
         gen_task(loader, check, w, False)
 
 
@@ -618,7 +795,7 @@ def run(check: Check):
     check.assume("A-NAMES is the only assumption left about add_op: user identifiers do not collide with internal base names")
     check.assume("code strings passed to RZILInstruction / SubRoutine have the shape fbody guarantees (start with newline or 'return', end with ';')")
     check.ob_filter = FILTER
-    tasks = [{"what": w} for w in ("add_op", "order", "fbody", "record", "record_ground", "names", "reg_decls", "catalog", "loops", "rendering", "final", "history")]
+    tasks = [{"what": w} for w in ("add_op", "order", "fbody", "comments", "record", "record_ground", "names", "reg_decls", "catalog", "loops", "rendering", "final", "history")]
     check.run_parallel("contracts.c11", "gen_task", tasks, workers=WORKERS, sink_attrs={"ob_filter": FILTER, "z3_timeout_ms": Z3_TIMEOUT_MS,
                                                                                         "cvc5_timeout_ms": CVC5_TIMEOUT_MS, "string_refute_bound": 6})
     run_mutants(check, MUTANTS, "contracts.c11", "generate_reduced")
